@@ -95,11 +95,40 @@ def oracle_certificate(rng, d):
     return ('after a second solve with other data: ' + why) if why else None
 
 
+def oracle_iteration_limit(rng, d):
+    """a solve that ECOS abandons at its iteration limit exposes no certificate: status 'solver failure', NaN everywhere"""
+    import sageopt.coniclifts as cl
+    con, cv = d['con'], d['cvar']
+    if d['m'] < 3:
+        return None
+    with warnings.catch_warnings(), sagecorr.adversarial_globals(d['settings']):
+        warnings.simplefilter('ignore')
+        prob = cl.Problem(cl.MIN, cv[0] - cv[1] + cv[2], [con, cv <= 4, cv >= -4])
+        try:
+            st, val = prob.solve(verbose=False, max_iters=rng.choice([1, 2, 3]), cache_raw_output=True)
+        except Exception as e:
+            return 'solve(max_iters small) raised %r' % (e,)
+    raw = prob.solver_raw_output.get('ECOS') if hasattr(prob, 'solver_raw_output') else None
+    flag = None if not raw else raw.get('info', {}).get('exitFlag')
+    if flag == -1:
+        if st != 'solver failure' or not math.isnan(val):
+            return ('ECOS stopped at its iteration limit (exit flag -1) but the problem reports (%s, %r): the AGE vectors it then exposes are not a '
+                    'certificate' % (st, val))
+        for i, av in con.age_vectors.items():
+            a = np.asarray(av.value, dtype=float)
+            vars_free = bool(av.variables())
+            if vars_free and not np.all(np.isnan(a[[j for j in range(len(a)) if not av[j].is_constant()]])):
+                return 'after a failed solve AGE vector %d still exposes numbers: %s' % (i, a.tolist())
+    return None
+
+
 def certificate_at_values(rng, d, con, m, n):
     c = np.asarray(con.c.value, dtype=float)
     tot = np.zeros(m)
     for i, av in con.age_vectors.items():
         a = np.asarray(av.value, dtype=float)
+        if not np.all(np.isfinite(a)) and np.all(np.isfinite(c)):
+            return 'after a successful solve the exposed AGE vector %d holds %s (c = %s)' % (i, a.tolist(), c.tolist())
         tot += a
         neg = [j for j in range(m) if a[j] < -1e-6]
         if any(j != i for j in neg):
@@ -191,6 +220,12 @@ def run(ctx):
         if d['ncones'] >= 1:
             ctx.nontrivial.add(vlib.sha(d['json']))
         cases.append((d['json'], d['cin'], d['cout']))
+        if k % 6 == 3:
+            why = oracle_iteration_limit(ctx.rng, d)
+            ctx.count('oracle_solves', 'iteration_limit')
+            if why:
+                ctx.problem('oracle', 'certificate check fails on the implementation: ' + why, inputs={'instance': d['json']}, failing_input_found=True)
+                break
         if k % 6 == 0:
             why = oracle_certificate(ctx.rng, d)
             ctx.count('oracle_solves', 'checked')
